@@ -142,3 +142,20 @@ Proof.
   split; [unfold f_one; apply consistent_closed_lemma; apply J_empty|].
   vm_compute. repeat split; try discriminate.
 Qed.
+
+(* Round 4: a subcontext exists after create_subcontext, so context_annotation_writers_serializable applies to
+   it; the two serial orders leave different annotations files; and a schedule that interleaves the two touches
+   of the lock file and lets writer 2 take the lock first ends, completely, in the order 2;1 *)
+Example subcontext_annotation_writers_example :
+  let cp := cdir (Some [115]%N) in
+  let f0 := run [WInit; WSubInit [115]%N] [] in
+  let w1 := store_annotation_at cp [97]%N [120]%N in
+  let w2 := store_annotation_at cp [98]%N [121]%N in
+  let s := lcrun (annot_lock_at cp) (annot_body_at cp [97]%N [120]%N) (annot_body_at cp [98]%N [121]%N)
+                 [true; false; true; false; false; true] f0 in
+  is_dir f0 cp = true
+  /\ lookup (runp w2 (runp w1 f0)) (annot_path_at cp) <> lookup (runp w1 (runp w2 f0)) (annot_path_at cp)
+  /\ lrunning (l_p1 s) = false /\ lrunning (l_p2 s) = false
+  /\ fs_eqb (l_fs s) (runp w1 (runp w2 f0)) = true /\ fs_eqb (l_fs s) (runp w2 (runp w1 f0)) = false
+  /\ lres (l_p1 s) = Some (inr tt) /\ lres (l_p2 s) = Some (inr tt).
+Proof. vm_compute. repeat split; try discriminate. Qed.
